@@ -19,7 +19,7 @@ log = logging.getLogger(__name__)
 RE_ILLEGAL_FILENAME_CHARS = re.compile(
     r'('
     r'[<>:"/\\|?*]+|'                  # Illegal characters
-    r'[\x00-\x1F]+|'                   # All characters in range 0-31
+    r'[\x00-\x1F\x7F-\x9F]+|'          # All control characters: 0-31, DEL and the C1 range 128-159
     r'[ \t]*(\.)+[ \t]*$|'             # Dots at the end
     r'(^[ \t]+|[ \t]+$)|'              # Leading and trailing whitespace
     r'^CON$|^PRN$|^AUX$|'              # Illegal names
